@@ -69,7 +69,10 @@ def binding(run):
         return i + 1
 
     def flip_ok(lines):
-        i = first(lines, lambda l: l["ev"]["fn"] in ("ESDTTransfer", "ESDTNFTTransfer") and l["ev"]["res"] == "err" and l["ev"]["a"] == "exec")
+        # (a refused transfer between two DIFFERENT accounts that the real parser could read: claiming it succeeded contradicts the ledger)
+        i = first(lines, lambda l: l["ev"]["fn"] in ("ESDTTransfer", "ESDTNFTTransfer") and l["ev"]["res"] == "err" and l["ev"]["a"] == "exec"
+                  and l["ev"]["par"]["ok"] and l["ev"]["par"]["items"] and l["ev"]["par"]["rcv"] not in ("", l["ev"]["caller"])
+                  and all(it["val"] > 0 for it in l["ev"]["par"]["items"]))
         # claim success and move a token nobody asked for
         lines[i]["ev"]["res"] = "ok"
         return i + 1
